@@ -41,4 +41,25 @@ theorem hash_refresh_src : hash_refresh_calls = "Refresh,Reset,clearCache" := by
 /-- `Storage.Reset` stores the new map after the scanner-error return. -/
 theorem hash_reset_src : hash_reset_store = "Err,Store" := by decide
 
+/-- A nil service (JSON `null`) is an error, checked before the first dereference (second fix). -/
+theorem svc_entry_src :
+    svc_entry_conds = "svc == nil | err != nil | len(svc.Rules) == 0 | err != nil" := by decide
+/-- `serviceblock.indexResp.toInternal`: no services is no error; every element is converted
+(`continue` on error), the joined error refuses the whole index. -/
+theorem svc_index_conds_src : svc_index_conds = "l == 0 | err != nil | err != nil" := by decide
+def svcIndexReturns : String :=
+  "nil, nil | nil, fmt.Errorf(\"converting blocked services: %w\", err) | services, nil"
+theorem svc_index_returns_src : svc_index_returns = svcIndexReturns := by decide
+/-- `Default.refresh` returns the error of the index, of a cancelled context, of the services and of
+the safe-search filters before it reaches `resetRuleLists`. -/
+def storageRefreshReturns : String :=
+  "err | fmt.Errorf(\"after refreshing rule lists: %w\", ctxErr) | err | err | nil"
+theorem storage_refresh_returns_src : storage_refresh_returns = storageRefreshReturns := by decide
+/-- `rulelist.Refreshable.Refresh` leaves at a download error before it touches the engine. -/
+theorem rulelist_refresh_conds_src : rulelist_refresh_conds = "err != nil | err != nil" := by decide
+theorem rulelist_refresh_calls_src :
+    rulelist_refresh_calls = "Refresh,filterlist.NewRuleStorage,Clear,urlfilter.NewDNSEngine" := by decide
+/-- The cache file is read whole, whatever the size limit for downloads is. -/
+theorem from_file_copy_src : from_file_copy = "b, file" := by decide
+
 end Agd.Tie.C13
